@@ -170,4 +170,19 @@ deriving DecidableEq, Repr
 def verifyMode (server : Bool) (caFile : Bool) : Verify :=
   if caFile then .certRequired else if server then .certNone else .certRequired
 
+/-! ## `mk_ssl_contexts_from_folder` -/
+
+inductive FolderResult
+  | fileNotFound                               -- `FileNotFoundError`
+  | contexts (client server : Verify)          -- an `SSLContextContainer` with these verify modes
+deriving DecidableEq, Repr
+
+/-- key file / certificate present in the folder; a CA file named (`ca_public_key`, default `cacert.pem`) and present.
+    A named CA file that is missing refuses; it never degrades to contexts without a CA. -/
+def fromFolder (keyPresent certPresent caNamed caPresent : Bool) : FolderResult :=
+  if !keyPresent then .fileNotFound
+  else if !certPresent then .fileNotFound
+  else if caNamed && !caPresent then .fileNotFound
+  else .contexts (verifyMode false caNamed) (verifyMode true caNamed)
+
 end Sdc.Tls
